@@ -42,7 +42,8 @@ def for_property(prop: str):
     mods["aiortc.utils"] = Profile({"unpack": shims.sx_unpack}, rewrite=())
     mods["aiortc.jitterbuffer"] = Profile({"range": shims.sx_range}, rewrite={"join"})
     sctp = dict(basic)
-    sctp.update({"set": sx_set, "dict": sx_dict})
+    sctp.update({"set": sx_set, "dict": sx_dict, "str": shims.sx_str})
+    mods["aiortc.rtcdatachannel"] = Profile({"str": shims.sx_str, "bytes": shims.sx_bytes}, rewrite=())
     mods["aiortc.rtcsctptransport"] = Profile(sctp, rewrite={"join", "containers"})
     recv = {
         "int": shims.sx_int,
